@@ -255,6 +255,31 @@ static Json::Value genC15(Rng& rng) {
     }
   }
   plan["ops"] = ops;
+  // the files of a cgroup are rewritten in the middle of a tick (after some
+  // of its statistics have been obtained, before others): whatever was
+  // obtained must stay what it is until the tick ends
+  if (rng.chance(0.2) && !paths.empty()) {
+    int ne = (int)rng.range(1, 3);
+    for (int i = 0; i < ne; i++) {
+      Json::Value e(Json::objectValue);
+      e["tick"] = (int)rng.range(0, ticks - 1);
+      e["at"] = (Json::Int64)rng.range(0, 120);
+      std::string p = rng.pick(paths);
+      int64_t b2 = 1LL << 40;
+      Json::Value sp = c15Spec(rng, p, b2, nextPid);
+      sp.removeMember("path");
+      e["op"]["op"] = "set";
+      e["op"]["cg"] = p;
+      e["op"]["v"] = sp;
+      plan["edits"].append(e);
+      // an io.stat that is empty until the edit gives it its first device
+      if (rng.chance(0.5))
+        for (auto& c : plan["world"]["cgroups"])
+          if (c["path"].asString() == p)
+            c["iostat"] = Json::Value(Json::arrayValue);
+    }
+    plan["config"]["rulesets"][0]["detectors"][0][1]["args"]["requery"] = "true";
+  }
   plan["clock_off"] = (Json::Int64)rng.range(0, 999999999);
   return plan;
 }
@@ -310,6 +335,9 @@ static void runC15() {
   for (const auto& t : R.plan["temporal_skip"])
     temporal.skipTicks.insert(t.asInt());
   const std::set<int> skipTicks = temporal.skipTicks;
+  std::set<int> editTicks;
+  for (const auto& ed : R.plan["edits"])
+    editTicks.insert(ed["tick"].asInt());
   g_onTick = [&]() {
     temporal.sample(W, R.tick);
     snaps.push_back(W);
@@ -389,6 +417,13 @@ static void runC15() {
                   ": repeated query changed value for " +
                   jstr(e.extra["unstable"]));
       return;
+    }
+    // mid-tick rewrites: on that tick only the stability of what was
+    // obtained is judged (which content a reader saw depends on when it
+    // read); afterwards the temporal series are not judged either
+    if (editTicks.count(t)) {
+      compared++;
+      continue;
     }
     const Temporal& tp = temps[t];
     bool root = rel.empty();
@@ -542,6 +577,10 @@ static void runC15() {
       skip.insert("average_usage");
       skip.insert("memory_growth");
     }
+    if (!editTicks.empty() && t > *editTicks.begin())
+      for (auto k : {"average_usage", "io_cost_rate", "pg_scan_rate",
+                     "memory_growth"})
+        skip.insert(k);
     for (const auto& k : ex.getMemberNames()) {
       if (skip.count(k))
         continue;
